@@ -23,6 +23,8 @@ SKELS = {
     "one": [dict(plen=5, tags=[(0xC1, 2)])],
     "two": [dict(plen=3, tags=[(0xC3, 1)]), dict(plen=4, tags=[(0xC1, 1), (0xC8, 2)])],
     "dup": [dict(plen=2, tags=[(0xC1, 1), (0xC8, 1)])],
+    "dup0": [dict(plen=2, tags=[(0xC1, 0), (0xC8, 1)])],  # first tag value empty (falsy)
+    "dup00": [dict(plen=2, tags=[(0xC1, 0), (0xC8, 0)])],
 }
 ENTRY_FIELDS = ["entry_len", "adr", "total", "actual", "desc_len", "tag_id0", "tag_len0", "iv_index"]
 GLOBAL_FIELDS = ["dir_size", "sentinel"]
@@ -52,8 +54,9 @@ def jobs(tier, seed):
         J.append(dict(name="struct:%s:trailing" % skel, kind="trailing", skel=skel, timeout=900, cost=50))
         J.append(dict(name="struct:%s:unedited" % skel, kind="fields", skel=skel, fields=[], timeout=600, cost=20))
     J.append(dict(name="struct:two:swap-entries", kind="swap", skel="two", timeout=900, cost=100))
-    for f in ("tag_id1@0", "tag_id0@0"):
-        J.append(dict(name="struct:dup:repeated-tag:%s" % f, kind="fields", skel="dup", fields=[f], tier="quick", concrete_tagvals=True, timeout=1500, cost=100))
+    for sk in ("dup", "dup0", "dup00"):
+        for f in ("tag_id1@0", "tag_id0@0"):
+            J.append(dict(name="struct:%s:repeated-tag:%s" % (sk, f), kind="fields", skel=sk, fields=[f], tier="quick", concrete_tagvals=True, timeout=1500, cost=100))
     J.append(dict(name="vacuity:accept-reachable", kind="fields", skel="one", fields=[], twin=True, expect="violated", timeout=300))
     if tier == "thorough":
         F1 = all_fields("one")
